@@ -163,6 +163,11 @@ func (e *Env) eval(x Expr) SVal {
 		if e.old == nil {
 			e.fail("old() not available here")
 		}
+		if id, ok := x.X.(*EIdent); ok {
+			if v, ok := e.vars[id.Name]; ok && v.Ty.K == KRef {
+				e.fail("old(%s) of a reference is just the reference: write old(f(%s)) instead of f(old(%s))", id.Name, id.Name, id.Name)
+			}
+		}
 		n := *e
 		n.cur = e.old
 		return n.eval(x.X)
